@@ -937,7 +937,13 @@ class Executor:
                     f = n.func
                     if isinstance(f, ast.Name) and f.id in ('isinstance', 'len'):
                         continue
+                    if isinstance(f, ast.Attribute) and f.attr in ('startswith', 'endswith', 'strip'):
+                        continue
                     return False
+                if isinstance(n, ast.Subscript) and isinstance(n.slice, ast.Slice):
+                    continue
+                if isinstance(n, ast.Attribute) and isinstance(n.ctx, ast.Load) and n.attr in ('startswith', 'endswith', 'strip'):
+                    continue
                 if isinstance(n, (ast.Attribute, ast.Subscript)):
                     return False
         return True
